@@ -42,7 +42,8 @@ class VTime:
         return self.now
 
     def monotonic(self):
-        return self.now
+        # like the real clocks: same pace as time(), unrelated epoch (code that compares the two is wrong)
+        return self.now - 4321.0
 
     def perf_counter(self):
         return self._real.perf_counter()
